@@ -134,7 +134,31 @@ def run_history(hist, dispatcher=None):
     return problems
 
 
+def check_failed_reply():
+    """the server's close frame is delivered even when the reply to it cannot be written (the peer dropped the connection right
+    after sending it): the receive call returns the close frame, it does not raise the transport's error (C14 / C15: a close frame
+    from the server ends the connection as such)."""
+    import websocket
+    probs = []
+    for short in (["error"], [3, "error"]):
+        ws = websocket.WebSocket()
+        ws.sock = MemSock([frames_for("close")], short_writes=list(short), eof=False)
+        ws.connected = True
+        ws.set_mask_key(lambda n: KEY)
+        try:
+            op, fr = ws.recv_data_frame(True)
+        except Exception as ex:  # noqa
+            probs.append(f"close frame followed by a refused reply (writes {short}): recv_data_frame raised {type(ex).__name__} instead of returning the close frame")
+            continue
+        if op != 8 or fr.data[:2] != (1000).to_bytes(2, "big") or ws.connected:
+            probs.append(f"close frame followed by a refused reply: returned opcode {op}, connected={ws.connected}")
+    return probs
+
+
 def search(seed, budget, max_len=5):
+    p = check_failed_reply()
+    if p:
+        return dict(found=True, witness=dict(history=[], kind="failed-reply"), detail=p, tried=1)
     rnd = random.Random(seed)
     for t in range(budget):
         n = rnd.randint(1, max_len)
@@ -161,6 +185,8 @@ def concretise(res, tier, seed):
 
 
 def replay_witness(w):
+    if w.get("kind") == "failed-reply":
+        return bool(check_failed_reply())
     return bool(run_history([tuple(x) for x in w["history"]], w.get("dispatcher")))
 
 
